@@ -28,8 +28,9 @@ def point(label: Any = None) -> None:
 
 
 class Sched:
-    def __init__(self, chooser: Chooser) -> None:
+    def __init__(self, chooser: Chooser, strict_costs: bool = False) -> None:
         self.ch = chooser
+        self.strict_costs = strict_costs  # every departure from the default successor costs 1 (also when the running thread ended)
         self.threads: dict[int, tuple[threading.Thread, threading.Semaphore]] = {}
         self.blocked: dict[int, Callable[[], bool]] = {}
         self.done: set[int] = set()
@@ -76,6 +77,8 @@ class Sched:
                 if running_enabled:
                     en = [self.cur] + [t for t in en if t != self.cur]
                     costs = (0,) + (1,) * (len(en) - 1)  # leaving a runnable thread is a preemption
+                elif self.strict_costs:
+                    costs = (0,) + (1,) * (len(en) - 1)
                 else:
                     costs = (0,) * len(en)
                 c = self.ch.choose(len(en), costs, label=tuple(en))
@@ -228,10 +231,29 @@ class _BatonFuture(Future):
 class BatonExecutor(Executor):
     """every batch of submitted tasks is executed as one set of logical threads under a fresh Sched sharing one Chooser"""
 
-    def __init__(self, chooser: Chooser) -> None:
+    def __init__(self, chooser: Chooser, trace_files: tuple[str, ...] = ()) -> None:
         self.chooser = chooser
         self.batch: list = []
         self.status: list[str] = []
+        # line-level preemption: every source line executed by a task inside a file whose path contains one of these
+        # fragments is a scheduling point (unsynchronised shared state in that code has no lock or proxy call to stop at)
+        self.trace_files = tuple(trace_files)
+
+    def _tracer(self):
+        frags = self.trace_files
+
+        def local(frame, event, arg):
+            if event == "line":
+                point(("line", frame.f_code.co_name, frame.f_lineno))
+            return local
+
+        def glob(frame, event, arg):
+            if event == "call":
+                fn = frame.f_code.co_filename
+                if any(fr in fn for fr in frags):
+                    return local
+            return None
+        return glob
 
     def submit(self, fn, /, *args, **kwargs):
         f = _BatonFuture(self)
@@ -242,13 +264,19 @@ class BatonExecutor(Executor):
         batch, self.batch = self.batch, []
         if not batch:
             return
-        s = Sched(self.chooser)
+        s = Sched(self.chooser, strict_costs=bool(self.trace_files))
 
         def body(f, fn, args, kwargs):
             def run():
+                import sys
+                if self.trace_files:
+                    sys.settrace(self._tracer())
                 try:
-                    f.set_result(fn(*args, **kwargs))
+                    r = fn(*args, **kwargs)
+                    sys.settrace(None)
+                    f.set_result(r)
                 except BaseException as e:  # noqa: BLE001
+                    sys.settrace(None)
                     f.set_exception(e)
             return run
 
